@@ -208,6 +208,22 @@ func c02Progs() map[string]*Prog {
 		{Name: "looper", Cmds: []C{{For: &vlab.For{MatrixRef: [][2]string{{"K", "L"}}}}, P()}},
 		sib,
 	}}
+	m["matrix-ref-row-before-literal-row"] = &Prog{Tasks: []*T{
+		{Name: "root", Deps: []Ref{D("main"), D("sib")}},
+		{Name: "main", Cmds: []C{
+			{Call: &Ref{Task: "looper", ListVars: [][2]string{{"L", "dev prod"}}}},
+		}},
+		{Name: "looper", Cmds: []C{{For: &vlab.For{Matrix: [][]string{{"ENVN", "@ref", "L"}, {"ACT", "build", "push"}}}}, P()}},
+		sib,
+	}}
+	m["shared-once-callee-first-caller-cancelled"] = &Prog{Tasks: []*T{
+		{Name: "root", Deps: []Ref{D("p"), D("q")}},
+		{Name: "p", Deps: []Ref{D("m1"), D("x")}},
+		{Name: "m1", Cmds: []C{CallS("s", "="), P()}},
+		{Name: "q", Cmds: []C{CallS("s", "="), P()}},
+		{Name: "x", Cmds: []C{P(), F()}},
+		{Name: "s", Run: "once", Cmds: []C{{Defer: true}, P(), P()}},
+	}}
 	m["call-once-callee"] = &Prog{Tasks: []*T{
 		{Name: "root", Deps: []Ref{D("main"), D("other")}},
 		{Name: "main", Cmds: []C{P(), CallS("s", "="), P()}},
@@ -234,8 +250,11 @@ func c02Units(tier string) []*Unit {
 		}
 		for _, conc := range concs {
 			bound := 2
+			if len(pg.Tasks) > 5 {
+				bound = 1
+			}
 			if tier == "thorough" {
-				bound = 3
+				bound++
 			}
 			sc := scen(fmt.Sprintf("%s/c%s", name, concName(conc)), pg, vlab.Options{Concurrency: conc}, "root")
 			us = append(us, &Unit{Name: sc.Name, Sc: sc, Bound: bound, Prune: true, Check: both(c02Check(pg), c01Check(pg)), Weight: len(pg.Tasks)})
